@@ -110,11 +110,13 @@ class World:
             self.devs = []
             self.mdevs = []
             self.port = ports_mod.EchoPort()
-        elif kind in ('multi', 'multi-gen'):
+        elif kind in ('multi', 'multi-gen', 'multi-yield'):
             self.devs = [Dev('a'), Dev('b')]
             self.mdevs = [MDev(), MDev()]
+            self.yield_ports = kind == 'multi-yield'
             # ("ports" may be any iterable; a generator can be walked only once)
-            self.port = ports_mod.MultiPort(self.devs if kind == 'multi' else (d for d in self.devs))
+            self.port = ports_mod.MultiPort(self.devs if kind != 'multi-gen' else (d for d in self.devs),
+                                            yield_ports=self.yield_ports)
             self.kind = kind = 'multi'
         else:
             raise KeyError(kind)
@@ -150,7 +152,7 @@ class World:
                     m = d.poll()
                     if m is None:
                         break
-                    self.mqueue.append(m)
+                    self.mqueue.append((self.mdevs.index(d), m) if getattr(self, 'yield_ports', False) else m)
         return self.mqueue.popleft() if self.mqueue else None
 
     def m_input_closed(self):
@@ -420,6 +422,8 @@ class Interp:
                 if len(want) > 200:
                     break
             res, sleeps = self._call(lambda: list(port.iter_pending()))
+            if res[0] == 'ok':
+                res = ('ok', [self._norm(x) for x in res[1]])
             if res[0] != 'ok' or len(res[1]) != len(want) or any(not (a == b) for a, b in zip(res[1], want)):
                 self._fail('iter_pending', f'got {res}, expected {want}')
             if sleeps:
@@ -471,6 +475,7 @@ class Interp:
             elif res[0] == 'budget':
                 self._fail('blocks-forever', 'iteration did not stop after the port closed')
             else:
+                res = ('ok', [self._norm(x) for x in res[1]])
                 if len(res[1]) != len(want) or any(not (a == b) for a, b in zip(res[1], want)):
                     self._fail('iteration-messages', f'iteration yielded {res[1]}, expected {want}')
                 elif sleeps != ticks:
@@ -499,6 +504,12 @@ class Interp:
         # keep the real script in step with the model's (the real run consumed the same number of ticks)
         self._sync_check(op)
 
+    def _norm(self, x):
+        """(port, message) pairs of a yield_ports MultiPort become (device index, message), as in the model."""
+        if isinstance(x, tuple) and len(x) == 2 and x[0] in self.w.devs:
+            return (self.w.devs.index(x[0]), x[1])
+        return x
+
     def _flush_unplayed(self, real_script):
         n = getattr(self, '_unplayed', 0)
         for a in list(real_script)[len(real_script) - n:] if n else []:
@@ -512,7 +523,7 @@ class Interp:
         if res[0] == 'exc':
             self._fail(f'{what}-raises', f'{res[1]!r} (expected {want!r})', exc=exc_sig(res[1]))
             return
-        got = res[1]
+        got = self._norm(res[1])
         if (got is None) != (want is None) or (got is not None and not (got == want)):
             self._fail(f'{what}-result', f'{what} returned {got!r}, expected {want!r}')
         elif sleeps != want_sleeps:
@@ -520,8 +531,81 @@ class Interp:
                        f'{what} slept {sleeps} times, expected {want_sleeps}')
 
 
+def check_gc(case):
+    """A port that goes out of scope is closed like by close(): device released exactly once, reset messages first."""
+    import gc
+    out = []
+    ar = case.get('autoreset', False)
+    dev = Dev('g', autoreset=ar)
+    calls = dev.calls
+    for i in range(case.get('sends', 0)):
+        dev.send(note(i))
+    if case.get('close_first'):
+        dev.close()
+    wrapper = ports_mod.IOPort(dev, dev) if case.get('wrap') else None
+    del dev
+    if wrapper is not None:
+        del wrapper
+    gc.collect()
+    closes = sum(1 for c in calls if c[0] == 'close')
+    sends = [c[1].bytes() for c in calls if c[0] == 'send']
+    want_sends = [note(i).bytes() for i in range(case.get('sends', 0))] + (RESET_REF if ar else [])
+    if closes != 1:
+        out.append(fail('gc-close-count', f'port dropped by the caller: _close called {closes} times ({case})'))
+    if sends != want_sends:
+        out.append(fail('gc-reset', f'port dropped by the caller: device got {len(sends)} sends, expected {len(want_sends)}'))
+    return out
+
+
+def check_volume(case):
+    n = case['n']
+    out = []
+    fake = FakeSleep(budget=10)
+    with patched_sleep(fake):
+        if case['port'] == 'echo':
+            port = ports_mod.EchoPort()
+            for i in range(n):
+                port.send(note(i, ch=i // 128))
+        elif case['port'] == 'multi':
+            subs = [ports_mod.EchoPort(), ports_mod.EchoPort()]
+            port = ports_mod.MultiPort(subs, yield_ports=case.get('yield_ports', False))
+            for i in range(n):
+                subs[i % 2].send(note(i, ch=i // 128))
+        else:
+            port = Dev('v')
+            port.wire.append([b for i in range(n) for b in note(i, ch=i // 128).bytes()])
+        got = []
+        how = case.get('how', 'iter_pending')
+        try:
+            if how == 'iter_pending':
+                got = list(port.iter_pending())
+            elif how == 'poll':
+                while True:
+                    m = port.poll()
+                    if m is None:
+                        break
+                    got.append(m)
+            else:
+                for _ in range(n):
+                    got.append(port.receive())
+        except SleepBudget:
+            out.append(fail('blocks-forever', f'{how} over a backlog of {n} messages kept sleeping'))
+        if case['port'] == 'multi' and case.get('yield_ports'):
+            got = [m for _, m in got]
+        key = sorted((m.channel, m.note) for m in got) if case['port'] == 'multi' else [(m.channel, m.note) for m in got]
+        want = [((i // 128) % 16, i % 128) for i in range(n)]
+        if key != (sorted(want) if case['port'] == 'multi' else want):
+            out.append(fail('backlog', f'{case}: {len(got)} of {n} messages came out (or in the wrong order)'))
+        port.close()
+    return out
+
+
 def run_case(case):
     LAST_TAGS.clear()
+    if case['kind'] == 'gc':
+        return check_gc(case)
+    if case['kind'] == 'volume':
+        return check_volume(case)
     if case['kind'] in ('server', 'brokenpipe'):
         # a PortServer (MultiPort over accepted socket ports): blocking receive with a message waiting in a sub-port
         from checks import c18_sockets as C18
@@ -540,6 +624,8 @@ def run_case(case):
 
 
 def nontrivial(case):
+    if case['kind'] in ('gc', 'volume'):
+        return True
     if case['kind'] in ('server', 'brokenpipe'):
         return True
     it = Interp(case['kind'], case.get('autoreset', False))
@@ -637,7 +723,8 @@ def make_machine(kind, autoreset):
     return PortMachine
 
 
-KINDS = [('device', False), ('device', True), ('echo', False), ('ioport', False), ('multi', False), ('multi-gen', False)]
+KINDS = [('device', False), ('device', True), ('echo', False), ('ioport', False), ('multi', False), ('multi-gen', False),
+         ('multi-yield', False)]
 
 
 def machine_shard(rec, shard):
@@ -688,6 +775,16 @@ def main(ctx):
     for case in C18.server_cases(ctx.tier):
         if case.get('late_send') and case['drain'] == 'receive':
             ctx.check(case, classes=('portserver-blocking-receive',), sample=False)
+    for ar in (False, True):
+        for sends in (0, 2):
+            for close_first in (False, True):
+                for wrap in (False, True):
+                    ctx.check({'kind': 'gc', 'autoreset': ar, 'sends': sends, 'close_first': close_first, 'wrap': wrap},
+                              sample=False)
+    for port in ('echo', 'device', 'multi'):
+        for how in ('iter_pending', 'poll', 'receive'):
+            ctx.check({'kind': 'volume', 'port': port, 'n': 5000, 'how': how}, sample=False)
+    ctx.check({'kind': 'volume', 'port': 'multi', 'n': 3000, 'how': 'receive', 'yield_ports': True}, sample=False)
     for case in C18.brokenpipe_cases():
         ctx.check(case, classes=('socket-port-broken-pipe-in-send',), sample=False)
     ctx.pmap('enum_failing_reset', [0])
